@@ -36,6 +36,7 @@ type Exec struct {
 	idBase   uint32
 	idKnown  bool
 	nsent    int
+	lastTx   []vp.TxRec // transmissions of the last observation, in the order they are listed
 }
 
 func NewExec(c *Ctx, tag string, proto mangos.ProtocolBase, newArgs string) *Exec {
@@ -111,6 +112,7 @@ func (e *Exec) observe() string {
 	}
 	tx := e.net.TakeTx()
 	sort.SliceStable(tx, func(i, j int) bool { return tx[i].Pipe < tx[j].Pipe })
+	e.lastTx = tx
 	for _, t := range tx {
 		if e.canonIDs && !e.idKnown && len(t.Header) >= 4 && e.nsent > 0 {
 			real := binary.BigEndian.Uint32(t.Header[len(t.Header)-4:])
@@ -157,10 +159,9 @@ func (e *Exec) InjectCanon(id int, body []byte) {
 	}
 	real := append([]byte{}, body...)
 	if e.canonIDs && e.idKnown && len(real) >= 4 {
+		// the low 31 bits are the counter (shifted by the learned base); the request bit is kept as given
 		w := binary.BigEndian.Uint32(real[:4])
-		if w&0x80000000 != 0 {
-			binary.BigEndian.PutUint32(real[:4], e.RealID(w))
-		}
+		binary.BigEndian.PutUint32(real[:4], (e.RealID(w)&0x7fffffff)|(w&0x80000000))
 	}
 	e.Op(fmt.Sprintf("inject %d %s", id, vp.Hex(body)), func() { p.Inject(real) })
 }
@@ -250,6 +251,16 @@ func (e *Exec) Hold(id int, on bool) {
 		p.Hold = on
 		e.emit(fmt.Sprintf("hold %d %d", id, b2i(on)), "-")
 	}
+}
+
+// ReleaseErr fails the pipe's parked send with a transport error other than ErrClosed
+func (e *Exec) ReleaseErr(id int) {
+	p := e.pipes[id]
+	if p == nil || p.PendingSends() == 0 {
+		return
+	}
+	e.Op(fmt.Sprintf("release %d err", id), func() { p.Release(mangos.ErrGarbled) })
+	delete(e.pipes, id)
 }
 
 func (e *Exec) Release(id int, ok bool) {
